@@ -7,7 +7,7 @@ use std::convert::TryFrom;
 use std::str::FromStr;
 use unic_locale::subtags::{Language, Region, Script, Variant};
 
-pub const RULE: &str = "Domain: every byte string of length 0-3 (exhaustive, 16 843 009 strings), every string of length 4-6 over a 24-byte boundary alphabet (exhaustive), lengths 6-9 over a 6-byte alphabet (exhaustive), every single-byte substitution (256 values x position) of valid subtags of every legal length, and weighted random bytes (proptest). Each string is fed to Language/Script/Region/Variant::from_bytes and compared with byte-level predicates written from the EBNF; on accept as_str/Display/==&str/FromStr must expose lower/Title/UPPER/lower text. Non-trivial = accepted by at least one type, or rejected although its length is one some type accepts and every byte is ASCII alphanumeric (class boundary). Enumerated cases are distinct by construction; random ones are counted through a hash set.";
+pub const RULE: &str = "Domain: every byte string of length 0-3 (exhaustive, 16 843 009 strings; thorough: also every byte string of length 4, 2^32), every string of length 4-6 over a 24-byte boundary alphabet (exhaustive), lengths 6-9 over a 6-byte alphabet (exhaustive), every single-byte substitution (256 values x position) of valid subtags of every legal length, and weighted random bytes (proptest). Each string is fed to Language/Script/Region/Variant::from_bytes and compared with byte-level predicates written from the EBNF; on accept as_str/Display/==&str/FromStr must expose lower/Title/UPPER/lower text. Non-trivial = accepted by at least one type, or rejected although its length is one some type accepts and every byte is ASCII alphanumeric (class boundary). Enumerated cases are distinct by construction; random ones are counted through a hash set.";
 
 pub const BOUNDARY: &[u8] = &[
     b'a', b'z', b'A', b'Z', b'm', b'0', b'9', b'5', b'@', b'[', b'`', b'{', b'/', b':', b'-', b'_', b'.', b' ',
@@ -332,9 +332,21 @@ pub fn run(cfg: &Cfg) -> Stats {
     total = total.merge(s);
     total.subspace("all byte strings of length 0..=3", n3, true);
 
+    // thorough: every byte string of length 4 (2^32) - the length at which script, the digit-led
+    // variant form and the invalid 4-letter language meet
+    if cfg.tier == Tier::Thorough {
+        let n4: u64 = 1 << 32;
+        let s = par_range(n4, |i, st| {
+            let buf = (i as u32).to_le_bytes();
+            check(&buf, st, None);
+        });
+        total = total.merge(s);
+        total.subspace("all byte strings of length 4", n4, true);
+    }
     // boundary alphabet, lengths 4..=5 | 4..=6
     let maxlen = cfg.pick(6u32, 6u32);
-    for len in 4..=maxlen {
+    // (length 4 is already complete in the thorough tier)
+    for len in (if cfg.tier == Tier::Thorough { 5 } else { 4 })..=maxlen {
         let n = (BOUNDARY.len() as u64).pow(len);
         let s = par_range(n, |mut i, st| {
             let mut buf = [0u8; 9];
